@@ -186,6 +186,17 @@ func (m *Machine) ev(e *E, in []*val.V, c Ctx) []*val.V {
 			out = append(out, m.travIdx(n, e.N, c)...)
 		}
 		return out
+	case "idxs":
+		// one bracket, several indices: per context node each index in turn (a padding index lengthens the sequence the
+		// following ones see)
+		var out []*val.V
+		for _, n := range in {
+			for _, t := range strings.Split(e.S, ", ") {
+				i, _ := strconv.Atoi(t)
+				out = append(out, m.travIdx(n, i, c)...)
+			}
+		}
+		return out
 	case "splat":
 		var out []*val.V
 		for _, n := range in {
